@@ -43,7 +43,10 @@ RULE = ("run i < table size decodes the i-th case of the finite table {request-l
         "interleaving point would be; work results of every truthiness (token, None, 0, '', [], {}, False, 0.0) alone and "
         "against an accepting / rejecting / raising validator; work / validation raising built-in exception types with and "
         "without a message (str(e) == ''); the id killed and listed again under the same id, or a requested resource registered "
-        "again while held, from work / validation / a checkpoint / a controller step} x {CoordinationSystem, IntegratedCell}; later runs sample cases with one or two faults, random "
+        "again while held, from work / validation / a checkpoint / a controller step} x {CoordinationSystem, IntegratedCell}; "
+        "holder mode 'blocked on the first entry, later entries pre-emptable and held by a lower-priority bystander'; sampled runs "
+        "also build the controller with checkpoints for only some phases and use a stepped holder whose priority was raised by "
+        "inheritance after it was queued; later runs sample cases with one or two faults, random "
         "priorities and pre-emption flags, re-entrant stepped holders; every case is followed by 1-3 seeded further "
         "operations (stepped start/acquire/release/complete/abort, kill, clock + maintenance, shutdown, further "
         "execute_operation calls); non-trivial = a run in which a fault fired, a duplicate entry was acquired or a foreign "
@@ -76,7 +79,9 @@ EXPECT_PROBES = ("exit_commit", "exit_blocked", "exit_unknown_resource", "exit_c
                  "step_kill_acq_after", "step_kill_adv_before", "acquired_after_being_killed", "exit_after_kill_failure",
                  "exit_after_kill_commit", "falsy_work_result", "adopted_hold", "preowned_lock",
                  "context_abandoned", "id_reused_after_end", "blocked_on_orphan_hold", "requeued_same_id", "reregistered",
-                 "reregistered_while_held", "validator_raised_empty_message")
+                 "reregistered_while_held", "validator_raised_empty_message", "blocked_exit_judged",
+                 "bystander_lock_watched_after_block", "weak_bystander_lock_named_after_block", "partial_checkpoints",
+                 "no_g2_checkpoint", "priority_boosted_by_maintenance")
 
 RES = ["r0", "r1", "r2"]
 PHASES = {"G0": Phase.G0, "G1": Phase.G1, "S": Phase.S, "G2": Phase.G2, "M": Phase.M}
@@ -87,7 +92,9 @@ SHAPES = [["a"], ["a", "b"], ["a", "a"], ["a", "b", "a"], ["a", "b", "c"], ["a",
 FOREIGN = ["none", "block_first", "block_last", "preempt_first", "preempt_last", "other",
            # the operation *id* owns the lock before this call asks for it: an abandoned earlier context of the same id
            # (stepping API, still live), or a ResourceLock that was registered already owned
-           "abandoned_first", "abandoned_last", "preowned_first", "preowned_other_id"]
+           "abandoned_first", "abandoned_last", "preowned_first", "preowned_other_id",
+           # blocked on the first entry while every later entry is pre-emptable and held by a lower-priority bystander
+           "block_first_weak_later"]
 CP_FAULTS = [["G0", 1], ["G0", 2], ["G1", 1], ["S", 1], ["G2", 1]]
 
 
@@ -195,6 +202,16 @@ def _case(shape, foreign, faults, via_cell, prio=2, fprio=None, preempt=None, du
                 pre.append(["acq", "X", target])
             if foreign.endswith("last") and len(set(reslist)) < 3:
                 pre.append(["acq", "X", [r for r in RES if r not in reslist][0]])   # a hold the retry never asks for
+        elif target is not None and foreign == "block_first_weak_later":
+            pre = [["start", "F0", 5 if fprio is None else max(fprio, prio)], ["acq", "F0", reslist[0]]]
+            later = [r for r in dict.fromkeys(reslist[1:]) if r != reslist[0]]
+            if later:
+                pre.append(["start", "F1", 0])
+                for r in later:
+                    flags[r] = True
+                    pre.append(["acq", "F1", r])
+                    if dup_foreign:
+                        pre.append(["acq", "F1", r])
         elif target is not None and foreign.startswith("preowned"):
             preowned = {target: ["X" if foreign == "preowned_first" else "ghost", 2 if dup_foreign else 1]}
         elif target is not None:
@@ -315,6 +332,15 @@ def gen(rng, tier, i):
         pre = pre + [["start", "F1", rng.choice([0, 3, 9])], ["acq", "F1", r]]
         if rng.random() < 0.5:
             pre.append(["acq", "F1", rng.choice([r, r, rng.choice(RES)])])
+    if rng.random() < 0.15:
+        cfg["cp_phases"] = sorted(ph for ph in PHASES if rng.random() < 0.5)
+    if rng.random() < 0.08:
+        # a stepped holder that is queued on another lock and then inherits the priority of somebody who waits for it
+        # (its priority changes between being queued and ending)
+        pre = [["start", "F1", 5], ["acq", "F1", "r1"], ["start", "F0", 0], ["acq", "F0", "r0"], ["acq", "F0", "r1"],
+               ["start", "F2", 9], ["acq", "F2", "r0"], ["maint"]]
+        cfg["limit"] = rng.random() < 0.5
+        cfg["preowned"] = {}
     if rng.random() < 0.12 and not cfg["preowned"]:
         cfg["preowned"] = {rng.choice(RES): [rng.choice(["X", "F0", "N1", "ghost"]), rng.choice([1, 1, 2])]}
     if rng.random() < 0.1:
@@ -339,6 +365,8 @@ def simplify(plan):
     for key in ("via_cell", "register_agent", "starve", "progress", "limit"):
         if cfg.get(key):
             yield {**plan, "config": {**cfg, key: False}}
+    if cfg.get("cp_phases") is not None:
+        yield {**plan, "config": {**cfg, "cp_phases": None}}
     for r, fl in cfg["res"].items():
         if fl:
             yield {**plan, "config": {**cfg, "res": {**cfg["res"], r: False}}}
@@ -392,8 +420,16 @@ class World:
         self.step_seen = {}          # (opid, site) -> calls
         self.step_action = None      # set by run(): performs the re-entrant action
         self.zombie = {}             # operations ended by a kill while their execute_operation call is still running
-        custom = any(op[0] == "exec" and op[4].get("cp") for op in plan["ops"])
-        self.ctrl = CellCycleController(checkpoints=self._checkpoints()) if custom else CellCycleController()
+        custom = any(op[0] == "exec" and op[4].get("cp") for op in plan["ops"]) or cfg.get("cp_phases") is not None
+        cps = self._checkpoints() if custom else {}
+        if cfg.get("cp_phases") is not None:
+            # a controller built with checkpoints for only some phases (the constructor installs the defaults only when
+            # the dict is empty; a phase without an entry has no gate at all)
+            cps = {ph: v for ph, v in cps.items() if ph.name in cfg["cp_phases"]}
+            k.probe("partial_checkpoints")
+            if "G2" not in cfg["cp_phases"] and cps:
+                k.probe("no_g2_checkpoint")
+        self.ctrl = CellCycleController(checkpoints=cps) if custom else CellCycleController()
         kw = {}
         if cfg.get("limit"):
             kw["max_operation_time"] = timedelta(seconds=LIMIT)
@@ -407,6 +443,7 @@ class World:
             self.cell = IntegratedCell(max_operation_time=kw.get("max_operation_time"))
             self.cell.coordination = self.sys
             k.probe("via_cell")
+        self.watch = []              # calls that were BLOCKED: lock state at that moment, and who else touched what since
         self.rereg_count = {}        # r -> how often it was registered again
         self.prios = {}
         self.reslists = {}           # opid -> request list of the call in flight (for re-entrant actions)
@@ -526,6 +563,16 @@ class World:
         rec = self.zombie.get(opid) or self.live.get(opid)     # the call in flight acquires, not a re-queued context
         if res in (LockResult.ACQUIRED, LockResult.PREEMPTED, LockResult.REENTRANT):
             self.touched.add(r)
+            for wt in self.watch:
+                if wt["rec"] is rec:
+                    wt["mine"].append((r, res.name))
+                else:
+                    wt["others"].add(r)
+        elif rec is not None and rec.get("in_call") is not None and not rec.get("stepped") \
+                and not any(wt["rec"] is rec for wt in self.watch):
+            # first BLOCKED answer of an execute_operation call: from here on the call is on its "blocked on the k-th
+            # resource" exit - remember every lock as it is now
+            self.watch.append({"rec": rec, "state": self.snapshot(), "others": set(), "ended": set(), "mine": []})
         if rec is None:
             return
         if opid in self.zombie and res != LockResult.BLOCKED:
@@ -569,6 +616,8 @@ class World:
         """r was registered again: whatever the library installs, the registered resource r is a new matter - nobody
         holds it by the history any more (the statement speaks about *registered* resources)."""
         self.touched.add(r)
+        for wt in self.watch:
+            wt["others"].add(r)
         self.rereg_count[r] = self.rereg_count.get(r, 0) + 1
         for o, rec in list(self.live.items()) + list(self.zombie.items()):
             if r in rec["holds"]:
@@ -596,6 +645,8 @@ class World:
             self.zombie[opid] = rec
         self.exit.setdefault(opid, path)
         self.ended_now.add(opid)
+        for wt in self.watch:
+            wt["ended"].add(opid)
         self.k.probe("exit_" + path)
 
     # -- oracle after each top-level call
@@ -852,6 +903,29 @@ def run(plan, k):
         else:
             w.must_be_dead.append((opid, "execute_operation"))
 
+        # ---- "blocked on its k-th resource ... resources it never obtained are untouched": from the moment of the block to
+        # the return of the call, a lock the operation did not own then is changed by nobody but others' own doing
+        wt = next((x for x in w.watch if x["rec"] is myrec), None)
+        if wt is not None:
+            w.watch.remove(wt)
+            if st["work"] == 0:
+                k.probe("blocked_exit_judged")
+                now = w.snapshot()
+                for r, (own, n) in wt["state"].items():
+                    if own == opid or r in wt["others"] or own in wt["ended"] or r not in now:
+                        continue
+                    if own is not None:
+                        k.probe("bystander_lock_watched_after_block")
+                        if reslist.count(r) and w.ctrl.resources[r].allow_preemption:
+                            k.probe("weak_bystander_lock_named_after_block")
+                    if now[r] != (own, n):
+                        how = {x for (r_, x) in wt["mine"] if r_ == r}
+                        site = "preempted_after_block" if "PREEMPTED" in how else \
+                            "acquired_after_block" if how else "not_by_acquisition"
+                        k.violation("untouched", "lock_changed_after_block", site,
+                                    f"{opid} was BLOCKED; afterwards {r}: {(own, n)} -> {now[r]}; its own later acquisitions "
+                                    f"{wt['mine']}")
+
         # ---- call-level clauses
         if st["work"] > 1:
             k.violation("work_once", "work_ran_twice", "execute_operation", f"{st['work']} calls")
@@ -954,6 +1028,9 @@ def run(plan, k):
                 else:
                     ev = out.value["coordination"]["apoptosis"] if w.cell is not None else out.value["apoptosis"]
                     k.ev("maint", [[e.operation_id, e.reason.name] for e in ev])
+                    boosts = out.value["coordination"]["priority_boosts"] if w.cell is not None else out.value["priority_boosts"]
+                    if boosts:
+                        k.probe("priority_boosted_by_maintenance")
                     apply_events(ev, "maint")
             elif name == "rereg":
                 if op[1] not in ctrl.resources:
